@@ -424,6 +424,8 @@ type ctx struct {
 	hung     bool
 	unhooked int // decodes whose scanner's split function could not be wrapped
 	judged   int // split calls of real Decoders held against the contract
+	sessions int
+	recent   []string // the last session lines (state left behind by a session may matter to the next)
 }
 
 func decLine(doc []byte, got []int, s sched) string {
@@ -831,6 +833,10 @@ func Run(r *common.Run) error {
 					}
 					c.splitDoc(doc, s, lim)
 				}
+			case "sess":
+				if decs, ops, ok := parseSess(f); ok {
+					c.session(decs, replayScript(ops), "replay")
+				}
 			case "hist":
 				if len(f) < 4 {
 					continue
@@ -865,6 +871,10 @@ func Run(r *common.Run) error {
 	}
 	c.longDocs()
 	c.longProbes()
+
+	// 1b. sessions: several decoders alive at once and used alternately, calls after the end,
+	// SkipSpan/SkipBlock (session.go)
+	c.sessions_()
 
 	// 2. small scope, exhaustive: every document up to length L over the directive alphabet
 	// under every way of cutting it into reads, with and without EOF on the last read
@@ -1087,7 +1097,7 @@ func repoDir() string {
 // Facts regenerates lean/XmppModel/Generated/C17.lean: the UTF-8 encodings of all runes
 // the real code treats as white space (every rune evaluated through the split function:
 // ">" + rune + "x" at EOF is a prefix of 1+len(rune) bytes exactly when isSpace is true),
-// the values of the exported Style constants, and the fence literal read from the AST.
+// the values of the exported Style constants, and the code fence as a probe table.
 func Facts(repo string) (string, error) {
 	var sb strings.Builder
 	sb.WriteString("-- GENERATED by `harness facts C17` from styling/styling.go; do not edit.\n")
@@ -1130,45 +1140,27 @@ func Facts(repo string) (string, error) {
 	}
 	fmt.Fprintf(&sb, "/-- values of the exported Style constants, in declaration order -/\ndef styleConsts : Option (List Nat) := some [%s]\n\n", strings.Join(cl, ", "))
 
-	fset := token.NewFileSet()
-	f, err := parser.ParseFile(fset, filepath.Join(repo, "styling", "styling.go"), nil, 0)
-	if err != nil {
-		return "", err
+	// the code fence, probed: for every byte value b and n = 1..5, does a line of n x b followed
+	// by "x\n" open a pre block in the real decoder?
+	var fp []string
+	probeOK := true
+	for b := 0; b < 256 && probeOK; b++ {
+		for n := 1; n <= 5; n++ {
+			doc := append(bytes.Repeat([]byte{byte(b)}, n), 'x', '\n')
+			res := decode(doc, sched{})
+			if res.panic != "" || res.hung || len(res.evs) == 0 {
+				probeOK = false
+				break
+			}
+			if res.evs[0].style&styling.BlockPreStart != 0 {
+				fp = append(fp, fmt.Sprintf("(%d, %d)", b, n))
+			}
+		}
 	}
-	var fence []string
-	found := false
-	ast.Inspect(f, func(n ast.Node) bool {
-		vs, ok := n.(*ast.ValueSpec)
-		if !ok {
-			return true
-		}
-		for i, name := range vs.Names {
-			if name.Name != "fence" || i >= len(vs.Values) {
-				continue
-			}
-			if cl, ok := vs.Values[i].(*ast.CompositeLit); ok {
-				found = true
-				for _, e := range cl.Elts {
-					bl, ok := e.(*ast.BasicLit)
-					if !ok || bl.Kind != token.CHAR {
-						found = false
-						break
-					}
-					v, _, _, err := strconv.UnquoteChar(bl.Value[1:len(bl.Value)-1], '\'')
-					if err != nil {
-						found = false
-						break
-					}
-					fence = append(fence, fmt.Sprintf("0x%02x", v))
-				}
-			}
-		}
-		return true
-	})
-	if found {
-		fmt.Fprintf(&sb, "/-- `var fence` of styling/styling.go -/\ndef fence : Option (List UInt8) := some [%s]\n", strings.Join(fence, ", "))
+	if probeOK {
+		fmt.Fprintf(&sb, "/-- every (byte b, n <= 5) for which a line of n x b + \"x\" opens a pre block in the real decoder (all 256 x 5 probed) -/\ndef fenceProbe : Option (List (Nat × Nat)) := some [%s]\n", strings.Join(fp, ", "))
 	} else {
-		sb.WriteString("def fence : Option (List UInt8) := none\n")
+		sb.WriteString("def fenceProbe : Option (List (Nat × Nat)) := none\n")
 	}
 	sb.WriteString("\n/-- the token size limit `NewDecoder` gives its scanner (second argument of `Buffer`, or the\ncapacity of its first argument if larger; `some none` = math.MaxInt or more, i.e. unbounded;\n`none` = the call has a shape the extractor does not recognise) -/\n")
 	switch known, unb, n := DecoderLimit(repo); {
@@ -1178,6 +1170,18 @@ func Facts(repo string) (string, error) {
 		sb.WriteString("def decoderLimit : Option (Option Nat) := some none\n")
 	default:
 		fmt.Fprintf(&sb, "def decoderLimit : Option (Option Nat) := some (some %d)\n", n)
+	}
+	fmt.Fprintf(&sb, "\n/-- the derived masks SkipSpan/SkipBlock test: StartDirective, EndDirective, BlockStartDirective, BlockEndDirective -/\ndef directiveMasks : Option (List Nat) := some [%d, %d, %d, %d]\n",
+		uint32(styling.StartDirective), uint32(styling.EndDirective), uint32(styling.BlockStartDirective), uint32(styling.BlockEndDirective))
+	sb.WriteString("\n/-- package level variables of package styling that the decoder's code uses and that are not\nread-only (assigned, address taken, method called on it, handed to a function that is not a pure\nstandard library predicate, aliased): state shared by all decoders of the process.\n`none` = the package could not be analysed -/\n")
+	if names, ok := SharedState(repo); ok {
+		q := make([]string, len(names))
+		for i, n := range names {
+			q[i] = strconv.Quote(n)
+		}
+		fmt.Fprintf(&sb, "def sharedState : Option (List String) := some [%s]\n", strings.Join(q, ", "))
+	} else {
+		sb.WriteString("def sharedState : Option (List String) := none\n")
 	}
 	sb.WriteString("\nend XmppModel.Generated.C17\n")
 	return sb.String(), nil
